@@ -51,6 +51,7 @@ class World:
         self.closed_by_client = []
         self.conn_life = []
         self.good_replies = 0
+        self.second_connections = 0
         self.contacted = set()
         self.peer_last_sent = {}
 
@@ -356,6 +357,49 @@ async def seeder(w, p, reader, writer, we_connect):
             pass
 
 
+async def second_connection(w, p):
+    """A listed peer that, while the client is connected to it, also connects to the client from
+    its own listening port (so that both connections have the same remote address), shakes hands,
+    stays a moment and closes that second connection."""
+    for _ in range(200):
+        if p["port"] in w.contacted:
+            break
+        await asyncio.sleep(0.05)
+    else:
+        return
+    await asyncio.sleep(p.get("second_after_ms", 100) / 1000)
+    try:
+        sk = socket.socket(socket.AF_INET, socket.SOCK_STREAM)
+        sk.setsockopt(socket.SOL_SOCKET, socket.SO_REUSEADDR, 1)
+        sk.setsockopt(socket.SOL_SOCKET, socket.SO_REUSEPORT, 1)
+        sk.bind(("127.0.0.1", p["port"]))
+        sk.setblocking(False)
+        await asyncio.get_running_loop().sock_connect(sk, ("127.0.0.1", 6881))
+        reader, writer = await asyncio.open_connection(sock=sk)
+    except OSError as e:
+        w.note("second connection from own port failed:", repr(e))
+        return
+    w.note("peer", p["port"], "opened a second connection from its own port")
+    w.second_connections += 1
+    try:
+        my_hs = bytes([19]) + PROTO + bytes(8) + w.info_hash + p["id"].encode()
+        writer.write(my_hs)
+        await writer.drain()
+        await asyncio.wait_for(reader.readexactly(68), 5)
+        n = len(w.pieces)
+        writer.write(struct.pack(">IB", 1 + (n + 7) // 8, 5) + bytes((n + 7) // 8))
+        await writer.drain()
+        await asyncio.sleep(p.get("second_linger_ms", 300) / 1000)
+    except (asyncio.IncompleteReadError, ConnectionError, asyncio.TimeoutError, OSError):
+        pass
+    finally:
+        try:
+            writer.close()
+        except Exception:
+            pass
+        w.note("peer", p["port"], "closed its second connection")
+
+
 async def incoming_peer(w, p):
     await asyncio.sleep(p.get("connect_delay_ms", 300) / 1000)
     for _ in range(40):
@@ -404,12 +448,13 @@ async def main():
     servers = [await asyncio.start_server(lambda r, wr: tracker(w, r, wr), "127.0.0.1", sc["tracker_port"])]
     for p in sc["peers"]:
         if not p["incoming"] and not p.get("dead"):
-            servers.append(await asyncio.start_server(lambda r, wr, p=p: seeder(w, p, r, wr, False), "127.0.0.1", p["port"]))
+            servers.append(await asyncio.start_server(lambda r, wr, p=p: seeder(w, p, r, wr, False), "127.0.0.1", p["port"], reuse_port=bool(p.get("second_connection_from_own_port"))))
     out = open(os.path.join(work, "stdout.txt"), "wb")
     env = dict(os.environ)
     env.update(sc.get("env", {}))
     proc = await asyncio.create_subprocess_exec(binary, "get", targ, cwd=work, stdout=out, stderr=subprocess.STDOUT, env=env)
     tasks = [asyncio.create_task(incoming_peer(w, p)) for p in sc["peers"] if p["incoming"]]
+    tasks += [asyncio.create_task(second_connection(w, p)) for p in sc["peers"] if p.get("second_connection_from_own_port")]
     expected = w.expected_files()
     verdict, detail = None, ""
     t_start = time.time()
@@ -515,7 +560,7 @@ async def main():
         "piece_files": len(piece_files), "pieces": len(w.pieces), "piece_problems": problems[:3],
         "panics": panics, "sanitizer": san, "unexpected_files": extra[:3],
         "tracker_requests": w.tracker_requests, "handshakes_ok": w.handshakes_ok, "handshakes_bad": w.handshakes_bad,
-        "bytes_moved": w.bytes_moved, "hostile": w.hostile, "closed_by_client": w.closed_by_client[:10], "conn_life": [dict(l, lived_s=l.get("lived_s", round(time.time() - l["t0"], 1)), t0=round(l["t0"] - T0, 2)) for l in w.conn_life[:10]], "peak_rss_kb": hwm, "log_tail": w.log[-25:], "stdout_tail": stdout[-600:],
+        "bytes_moved": w.bytes_moved, "second_connections": w.second_connections, "hostile": w.hostile, "closed_by_client": w.closed_by_client[:10], "conn_life": [dict(l, lived_s=l.get("lived_s", round(time.time() - l["t0"], 1)), t0=round(l["t0"] - T0, 2)) for l in w.conn_life[:10]], "peak_rss_kb": hwm, "log_tail": w.log[-25:], "stdout_tail": stdout[-600:],
     }))
 
 
